@@ -47,6 +47,7 @@ type Frame struct {
 	presiteName string // site label of this activation's assumed preconditions (skolem lookup)
 	visited  map[*ssa.Range]*Term // ghost visited set per map range at loop head
 	curKey   map[*ssa.Range]*Term
+	curBlock *ssa.BasicBlock // block being executed (at-call clauses look up the enclosing loop)
 }
 
 type loopInfo struct {
@@ -363,6 +364,7 @@ func (f *Frame) run(st *State, reach *Term) (*State, *Term, []Val) {
 		}
 		// instructions
 		terminated := false
+		f.curBlock = b
 		for _, in := range b.Instrs {
 			switch x := in.(type) {
 			case *ssa.Phi, *ssa.DebugRef:
